@@ -453,6 +453,43 @@ def playback(scratch, h, res):
     return reproduced, rpath, detail
 
 
+def mem_available_gb():
+    try:
+        for l in open("/proc/meminfo"):
+            if l.startswith("MemAvailable:"):
+                return int(l.split()[1]) / 1048576.0
+    except OSError:
+        pass
+    return 1e9
+
+
+class MemBudget:
+    """Memory budget shared by the worker threads of one check.  A job takes its whole share in ONE
+    step (taking it unit by unit from a counting semaphore can deadlock: several workers each hold
+    a part and none can complete).  Before starting, a job also waits (bounded) until the machine
+    actually has that much memory available, so that two checks started side by side do not push
+    each other into the out-of-memory killer."""
+
+    def __init__(self, total):
+        self.avail = total
+        self.cond = threading.Condition()
+
+    def acquire(self, n):
+        with self.cond:
+            while self.avail < n:
+                self.cond.wait()
+            self.avail -= n
+        waited = 0
+        while mem_available_gb() < n + 2 and waited < 900:
+            time.sleep(5)
+            waited += 5
+
+    def release(self, n):
+        with self.cond:
+            self.avail += n
+            self.cond.notify_all()
+
+
 def run_property(prop, harnesses, tier, meta, only=None, workers=None, mem_total_gb=44, extra=None):
     """Run all harnesses of a property for a tier, print verdict lines, write evidence."""
     t_start = time.time()
@@ -474,17 +511,15 @@ def run_property(prop, harnesses, tier, meta, only=None, workers=None, mem_total
         builds = sorted(set(h.build for h in hs))
         info = inject(scratch, builds)
         # warm one target dir per build sequentially (compiles dependencies once), then fan out
-        mem_sem = threading.Semaphore(mem_total_gb)
+        budget = MemBudget(mem_total_gb)
 
         def job(h):
             n = min(max(1, h.mem_gb), mem_total_gb)
-            for _ in range(n):
-                mem_sem.acquire()
+            budget.acquire(n)
             try:
                 return h, run_kani(scratch, h)
             finally:
-                for _ in range(n):
-                    mem_sem.release()
+                budget.release(n)
 
         nw = workers or int(os.environ.get("VERIF_JOBS", "8"))
         # without a warm cache, run the first harness of each build alone so that its target dir
